@@ -25,6 +25,10 @@ type DB struct {
 
 var ErrInvalidMagic = errors.New("invalid magic")
 
+// maxHeaderLen bounds the header that follows the magic and the length field:
+// value size, bucket count, version and at most 255 metadata pairs of 255+255 bytes.
+const maxHeaderLen = 1 << 20
+
 // Open returns a handle to access a compactindex.
 //
 // The provided stream must start with the Magic byte sequence.
@@ -43,6 +47,9 @@ func Open(stream io.ReaderAt) (*DB, error) {
 		return nil, ErrInvalidMagic
 	}
 	size := binary.LittleEndian.Uint32(magicAndSize[8:])
+	if size > maxHeaderLen {
+		return nil, fmt.Errorf("invalid header length: %d", size)
+	}
 	fileHeaderBuf := make([]byte, 8+4+size)
 	n, readErr = stream.ReadAt(fileHeaderBuf, 0)
 	if n < len(fileHeaderBuf) {
